@@ -68,7 +68,12 @@ class MetaBoolean(type):
 
 class _Boolean(_PrimitiveType, metaclass=MetaBoolean):
     def __init__(self, value=False):
-        self._value = bool(value)
+        if isinstance(value, str):
+            # same conversion as in _assign, bool("0") would be True
+            assert value in ("0", "1")
+            self._value = value == "1"
+        else:
+            self._value = bool(value)
 
     @property
     def type(self):
